@@ -200,3 +200,54 @@ Proof.
   destruct (ProtoPrintFileFullProofs.token_roundtrip _ _ (ProtoPrintFileWfProofs.wf_dfile_b_sound _ _ Hb)) as (D' & Hp & He & _).
   exists D'. split; [|exact He]. unfold print_linked. rewrite Hs. exact Hp.
 Qed.
+
+(* ---- the seeded class C14-C on the model: a local package whose directory lies below another local package's directory.
+   outer/v1/outer.j5s (package outer.v1) and outer/v1/inner/v1/inner.j5s (package outer.v1.inner.v1, importing outer.v1). *)
+Definition exn_bd : J5sAst.bundle :=
+  [ BJ (mkJfile [b "outer"; b "v1"] (b "outer") [] [EObject (b "Outer") (mkprops [Property (b "x") false false (FScalar SString)]) NNil]);
+    BJ (mkJfile [b "outer"; b "v1"; b "inner"; b "v1"] (b "inner") [mkImport (b "outer.v1") (b "outer")]
+         [EObject (b "Inner") (mkprops [Property (b "o") false false (FObjRef (mkRef (b "outer") (b "Outer")))]) NNil]) ].
+Definition exn_pkgs : list bytes := [b "outer.v1"; b "outer.v1.inner.v1"].
+Definition exn_ann : ann_table := fun _ _ _ => mkAnnot 0 PF.no_cmt [].
+Definition exn_r1 : run :=   (* the enclosing package listed first *)
+  mkRun exn_pkgs (src_files exn_bd) (fun _ l => l) (fun _ l => l) (fun _ l => l) 3 6 [] (fun l => l).
+Definition exn_r2 : run :=   (* the nested package listed first, file listing reversed, outer.v1 compiled before *)
+  mkRun (rev exn_pkgs) (rev (src_files exn_bd)) (fun _ l => rev l) (fun _ l => rev l) (fun _ l => rev l) 4 7 [b "outer.v1"] (fun l => rev l).
+Definition p_inner : bytes := b "outer/v1/inner/v1/inner.j5s.proto".
+
+(* the path.Dir filter gives each package its own file only, under both listings; both prefixes match the nested file *)
+Lemma exn_attribution :
+  map (fun p => (fst p, map CmpbOrder.f_name (snd p))) (flat_bundle exn_pkgs (src_files exn_bd))
+    = [(b "outer.v1", [b "outer/v1/outer.j5s"]); (b "outer.v1.inner.v1", [b "outer/v1/inner/v1/inner.j5s"])]
+  /\ map (fun p => (fst p, map CmpbOrder.f_name (snd p))) (flat_bundle (rev exn_pkgs) (rev (src_files exn_bd)))
+    = [(b "outer.v1.inner.v1", [b "outer/v1/inner/v1/inner.j5s"]); (b "outer.v1", [b "outer/v1/outer.j5s"])]
+  /\ map (fun pre => has_prefix pre p_inner) (local_prefixes exn_pkgs) = [true; true]
+  /\ split_owner p_inner = b "outer.v1.inner.v1".
+Proof. repeat split; vm_compute; reflexivity. Qed.
+
+(* packageForFile as the seeded change C14-C writes it (the first LISTED package whose prefix matches) depends on the
+   listing order on this bundle; SplitPackageFromFilename behind hasAPrefix (the code, and the model) does not *)
+Definition first_listed_owner (pkgs : list bytes) (path : bytes) : option bytes :=
+  find (fun p => has_prefix (pkg_root p ++ [47%N]) path) pkgs.
+Lemma exn_first_listed_owner_order_dependent :
+  first_listed_owner exn_pkgs p_inner <> first_listed_owner (rev exn_pkgs) p_inner
+  /\ (forall pkgs, Permutation pkgs exn_pkgs ->
+        (if is_local_of pkgs p_inner then Some (split_owner p_inner) else None) = Some (b "outer.v1.inner.v1")).
+Proof.
+  split; [vm_compute; discriminate|]. intros pkgs Hp. rewrite (is_local_of_perm pkgs exn_pkgs p_inner Hp). vm_compute. reflexivity.
+Qed.
+
+(* both runs compile and print the nested package to the same single file, which imports the enclosing package's file *)
+Lemma exn_computes : exists o,
+  compile_and_print exn_bd exb_exts exn_ann exn_r1 (b "outer.v1.inner.v1") = Some o
+  /\ compile_and_print exn_bd exb_exts exn_ann exn_r2 (b "outer.v1.inner.v1") = Some o
+  /\ map (fun x => (fst (fst x), match snd (fst x) with Some d => fl_deps d | None => [] end)) o
+     = [(p_inner, [p_ann; b "outer/v1/outer.j5s.proto"])]
+  /\ forallb (fun x => negb (Nat.eqb (length (snd x)) 0)) o = true.
+Proof. eexists. split; [vm_compute; reflexivity|split; [vm_compute; reflexivity|split; vm_compute; reflexivity]]. Qed.
+Lemma exn_runs_ok : run_ok exn_pkgs exn_bd exn_r1 /\ run_ok exn_pkgs exn_bd exn_r2.
+Proof.
+  split; unfold run_ok, perm_fun.
+  - cbn. repeat split; intros; apply Permutation_refl.
+  - cbn [exn_r2 r_pkgs r_files r_lf r_rd r_rf r_range]. repeat split; intros; apply Permutation_sym, Permutation_rev.
+Qed.
